@@ -26,7 +26,7 @@
 
 #define RO_MAX_OPS 400000
 
-typedef struct ro_emit_rec { long long off; size_t len; int pad; int vt_guess; uint8_t *bytes; } ro_emit_rec_t;
+typedef struct ro_emit_rec { long long off; size_t len; int pad; int vt_guess; unsigned nest; uint8_t *bytes; } ro_emit_rec_t;
 
 typedef struct ro_ctx {
     flatcc_builder_t B;
@@ -56,7 +56,7 @@ static int ro_emit(void *ctxp, const flatcc_iovec_t *iov, int iov_count, flatbuf
     if (c->fe > 0) --c->fe;
     if (c->nrecs == c->caprecs) { c->caprecs = c->caprecs ? c->caprecs * 2 : 64; c->recs = (ro_emit_rec_t *)realloc(c->recs, c->caprecs * sizeof(*c->recs)); }
     r = &c->recs[c->nrecs++];
-    r->off = offset; r->len = len; r->bytes = (uint8_t *)malloc(len ? len : 1);
+    r->off = offset; r->len = len; r->nest = (unsigned)c->B.nest_id; r->bytes = (uint8_t *)malloc(len ? len : 1);
     r->pad = (iov_count == 1 && iov[0].iov_base == (void *)flatcc_builder_padding_base);
     for (i = 0; i < iov_count; ++i) { memcpy(r->bytes + k, iov[i].iov_base, iov[i].iov_len); k += iov[i].iov_len; }
     if (k != len) { fprintf(stderr, "emit: iov lengths %zu != len %zu\n", k, len); exit(4); }
@@ -191,6 +191,10 @@ static int ro_op(ro_ctx_t *c, size_t i, char *tok)
     if (IS("snap")) { ro_snap(c); return 0; }
     if (IS("fin")) { ro_fin(c); return 0; }
     if (IS("evs")) { size_t k; if (!c->nrecs) printf("-"); for (k = 0; k < c->nrecs; ++k) printf("%s%lld:%zu", k ? "," : "", c->recs[k].off, c->recs[k].len); printf(" "); return 0; }
+    if (IS("evb")) { /* emit log with the nest id of the buffer under construction and the bytes: off:nest:hex,... */
+        size_t k; if (!c->nrecs) printf("-");
+        for (k = 0; k < c->nrecs; ++k) { printf("%s%lld:%u:", k ? "," : "", c->recs[k].off, c->recs[k].nest); hx_print(c->recs[k].bytes, c->recs[k].len); }
+        printf(" "); return 0; }
     if (IS("nvt")) {
         /* clustered vtables are exactly the non-padding emits at offsets >= 0 */
         size_t k, j, nv = 0, nd = 0;
